@@ -28,12 +28,12 @@
      D8  the line pipelined directly behind PASV/PORT is executed from inside DTP.connectionMade, before the DTP's
          receive buffer exists: a STOR there fails with 426 after opening the file (never closed), leaves its
          consumer registered (later data is written to it) and makes every later STOR on that connection fail.
+     D9  control connection lost while PORT is connecting: the connect is aborted, PORT completes and the
+         next pipelined line is executed from inside connectionLost (flag late).
      D10 a DTP stores into one file only: a second STOR on the same data connection fails with 426 after opening
          the file (the DTP's buffer is gone) -- D5's "150 then 226" is what the first STOR on a lost connection gets.
      D11 the peer closes the data connection during RETR: the transport stops the file sender (426) before the DTP
          hears of the loss, so the next pipelined line still sees "connected" (flag half).
-     D9  control connection lost while PORT is connecting: the connect is aborted, PORT completes and the
-         next pipelined line is executed from inside connectionLost (flag late).
 *)
 EXTENDS Naturals, Integers, Sequences, FiniteSets
 
@@ -229,9 +229,9 @@ DPump ==
 DData ==
     LET y == ObsReset(x) IN
     /\ Up /\ x.dt.live
-    /\ x' = IF ~y.dt.att THEN y
-            ELSE IF y.busy = "STOR" \/ y.dt.stuck THEN Shell(y, <<"wdata">>)
-            ELSE [y EXCEPT !.buf = @ + 1]
+    /\ x' = IF y.dt.stuck THEN Shell(y, <<"wdata">>)       \* a consumer is registered (STOR in progress, or D8 -- even orphaned)
+            ELSE IF y.dt.att THEN [y EXCEPT !.buf = @ + 1]
+            ELSE y
     /\ last' = [e |-> "ddata"]
     /\ UNCHANGED cfg
 
